@@ -390,6 +390,7 @@ Proof.
   unfold len in Hlen.
   destruct (c_data c) as [|fl [|r1 [|r2 [|r3 [|w0 [|w1 [|w2 [|h0 [|h1 [|h2 tl]]]]]]]]]] eqn:Edata;
     cbn [length] in Hlen; try lia.
+  match goal with |- context [if ?c then Err E_vp8x else _] => destruct c end; [discriminate|].
   destruct (slice_some payload n (len payload)) as [rest [Hr Hrl]]; try lia.
   rewrite Hr. cbn [bind].
   match goal with |- context [ext_loop ?fu rest ?d0] =>
